@@ -84,11 +84,17 @@ func (p *regExpParser) scan() {
 // (...)
 func (p *regExpParser) scanGroup() {
 	str := p.str[p.chrOffset:]
-	if len(str) > 1 { // A possibility of (?= or (?!
-		if str[0] == '?' {
-			if str[1] == '=' || str[1] == '!' {
-				p.error(-1, "re2: Invalid (%s) <lookahead>", p.str[p.chrOffset:p.chrOffset+2])
-			}
+	if len(str) > 0 && str[0] == '?' {
+		// Only (?: (?= and (?! are groups in JavaScript, everything else
+		// ((?), (?i), (?P<name>, ...) is re2 syntax and must not leak through.
+		switch {
+		case len(str) > 1 && (str[1] == '=' || str[1] == '!'):
+			p.error(-1, "re2: Invalid (%s) <lookahead>", p.str[p.chrOffset:p.chrOffset+2])
+		case len(str) > 1 && str[1] == ':':
+		default:
+			p.error(-1, "Invalid group")
+			p.invalid = true
+			return
 		}
 	}
 	for p.chr != -1 && p.chr != ')' {
